@@ -1,3 +1,345 @@
-import PybtexModel.Model.Basic
+/-
+C19 — `.bbl` line wrapping preserves content and respects the width.
+
+Property theorems only.  The model of `wrap` / `find_break` / `iter_lines`
+(pybtex/bibtex/utils.py:33-93) is `Model/Wrap.lean`; the vocabulary of the statements
+(`WsAt`, `LegalBreak`, `unjoin`, `nonWs`, `words`, `StrippedOf`) is `Spec/Wrap.lean`; helper lemmas
+are in `Lemmas/Wrap.lean`.
+
+All theorems hold for EVERY text `s`, EVERY integer `width` (also 0 and negative ones, which the
+code accepts) and EVERY indent string; the few statements that only make sense for a white-space
+indent say so in an explicit hypothesis.  `iterLines width indent s` is the list of lines yielded
+by `iter_lines` (before `rstrip`), `wrap width indent s` the returned string.
+-/
+import PybtexModel.Lemmas.Wrap
+
 namespace Pybtex.Props
+open Pybtex Pybtex.Wrap
+
+/-! ### content -/
+
+/-- Joining the lines back together reproduces the text: there are white-space characters
+`c₁ … cₖ` (one per line break) such that
+`s = l₀ ++ [c₁] ++ drop |indent| l₁ ++ … ++ [cₖ] ++ drop |indent| lₖ ++ trail`, where `trail` is
+empty – except that with an EMPTY indent one final white-space character of the text can
+disappear (`wrap('aaaa ', 3, '')`, see `C19_content_trail_needed`).  Together with `C19_indent`
+(the dropped prefix of every continuation line is the indent) nothing else is lost, duplicated
+or altered; `C19_rstrip` relates these lines to the emitted ones. -/
+theorem C19_content (width : Int) (indent s : Str) :
+    ∃ (seps : List Char) (trail : Str),
+      seps.length = (iterLines width indent s).length - 1 ∧
+      (∀ c ∈ seps, isWs c = true) ∧
+      s = unjoin indent.length (iterLines width indent s) seps ++ trail ∧
+      (∀ c ∈ trail, isWs c = true) ∧ trail.length ≤ 1 ∧ (indent ≠ [] → trail = []) := by
+  rcases iterLines_content width indent s with ⟨h1, h2⟩ | ⟨l, rest, seps, tr, hL, hsl, hsw, htw, htl, hti, _, hs⟩
+  · exact ⟨[], [], by simp [h1], by simp, by rw [h1, h2]; rfl, by simp, by simp, fun _ => rfl⟩
+  · exact ⟨seps, tr, by simp [hL, hsl], hsw, by rw [hL]; exact hs, htw, htl, hti⟩
+
+/-- With a non-empty indent (BibTeX output: two blanks) the reconstruction is exact. -/
+theorem C19_content_exact (width : Int) (indent s : Str) (hind : indent ≠ []) :
+    ∃ seps : List Char, seps.length = (iterLines width indent s).length - 1 ∧
+      (∀ c ∈ seps, isWs c = true) ∧ s = unjoin indent.length (iterLines width indent s) seps := by
+  obtain ⟨seps, tr, h1, h2, h3, _, _, h6⟩ := C19_content width indent s
+  rw [h6 hind, List.append_nil] at h3
+  exact ⟨seps, h1, h2, h3⟩
+
+/-- a non-trivial instance: three lines, separators blank and tab -/
+theorem C19_content_exact_nonvacuous :
+    iterLines 9 "  ".toList "01234 6789\t12345".toList
+      = ["01234".toList, "  6789".toList, "  12345".toList] ∧
+    "01234 6789\t12345".toList
+      = unjoin 2 ["01234".toList, "  6789".toList, "  12345".toList] [' ', '\t'] := by
+  decide +kernel
+
+/-- The `trail` of `C19_content` cannot be dropped for the empty indent: the final blank of
+`'aaaa '` is not in any line. -/
+theorem C19_content_trail_needed :
+    iterLines 3 [] "aaaa ".toList = ["aaaa".toList] ∧
+    ∀ seps : List Char, "aaaa ".toList ≠ unjoin 0 ["aaaa".toList] seps := by
+  refine ⟨by decide +kernel, ?_⟩
+  intro seps h
+  have := congrArg List.length h
+  simp [unjoin] at this
+
+/-- End to end, on the string `wrap` returns (white-space indent): the non-white-space
+characters of the output are exactly those of the text, in the same order – wrapping never
+loses, duplicates or alters a non-white-space character. -/
+theorem C19_content_output (width : Int) (indent s : Str) (hind : ∀ c ∈ indent, isWs c = true) :
+    nonWs (wrap width indent s) = nonWs s := by
+  have hstrip : ((iterLines width indent s).map rstrip).map nonWs = (iterLines width indent s).map nonWs := by
+    simp only [List.map_map]
+    exact List.map_congr_left (fun l _ => nonWs_stripped (rstrip_spec l))
+  rw [wrap, nonWs_joinWith_nl, hstrip]
+  rcases iterLines_content width indent s with ⟨h1, h2⟩ | ⟨l, rest, seps, tr, hL, hsl, hsw, htw, _, _, _, hs⟩
+  · rw [h1, h2]; rfl
+  · have hp : ∀ l' ∈ rest, indent <+: l' := by
+      intro l' hl'
+      have := iterLines_all_prefix width indent s
+      rcases Classical.em ((s.length : Int) > width) with hl | hl
+      · cases hb : findBreak width indent s with
+        | none => rw [iterLines_none hl hb] at hL; injection hL with _ h; subst h; simp at hl'
+        | some p =>
+          rw [iterLines_some hl hb] at hL
+          injection hL with _ h
+          exact iterLines_all_prefix width indent _ (List.prefix_append _ _) l' (h ▸ hl')
+      · rw [iterLines_short hl] at hL
+        split at hL
+        · cases hL
+        · injection hL with _ h; subst h; simp at hl'
+    conv => rhs; rw [hs]
+    rw [hL, nonWs_append, nonWs_append, nonWs_glue hind seps rest hsl hsw hp, nonWs_of_all_ws htw]
+    simp
+
+theorem C19_content_output_nonvacuous :
+    wrap 9 "  ".toList "01234 6789\t12345 ".toList = "01234\n  6789\n  12345".toList ∧
+    nonWs "01234\n  6789\n  12345".toList = "01234678912345".toList := by
+  decide +kernel
+
+/-! ### breaks -/
+
+/-- Lines are broken only at white space: whenever a line `l` is followed by another line, the
+text is `l ++ [c] ++ t` for a white-space character `c` – the only character the break
+consumes – and the remaining lines are exactly the lines of `indent ++ t`.  Applied again to
+`indent ++ t` this describes every break of the output. -/
+theorem C19_breaks_at_ws (width : Int) (indent s l l' : Str) (rest : List Str)
+    (h : iterLines width indent s = l :: l' :: rest) :
+    ∃ c t, isWs c = true ∧ s = l ++ c :: t ∧ iterLines width indent (indent ++ t) = l' :: rest := by
+  rcases Classical.em ((s.length : Int) > width) with hl | hl
+  · cases hb : findBreak width indent s with
+    | none => rw [iterLines_none hl hb] at h; simp at h
+    | some p =>
+      rw [iterLines_some hl hb] at h
+      injection h with h1 h2
+      obtain ⟨c, hc, hsplit⟩ := (findBreak_some hb).2.1.split
+      exact ⟨c, s.drop (p + 1), hc, by rw [← h1]; exact hsplit, h2⟩
+  · rw [iterLines_short hl] at h
+    split at h <;> simp at h
+
+theorem C19_breaks_at_ws_nonvacuous :
+    iterLines 9 "  ".toList "01234 6789 12345".toList
+      = "01234".toList :: "  6789".toList :: ["  12345".toList] := by
+  decide +kernel
+
+/-- No word is split, lost, duplicated or altered (white-space indent): the words of the text
+are the words of the lines, line after line; the same holds for the returned string. -/
+theorem C19_words (width : Int) (indent s : Str) (hind : ∀ c ∈ indent, isWs c = true) :
+    ((iterLines width indent s).map words).flatten = words s ∧
+    words (wrap width indent s) = words s := by
+  have hstrip : ((iterLines width indent s).map rstrip).map words = (iterLines width indent s).map words := by
+    simp only [List.map_map]
+    exact List.map_congr_left (fun l _ => words_stripped (rstrip_spec l))
+  have main : ((iterLines width indent s).map words).flatten = words s := by
+    rcases iterLines_content width indent s with ⟨h1, h2⟩ | ⟨l, rest, seps, tr, hL, hsl, hsw, htw, _, _, _, hs⟩
+    · rw [h1, h2]; rfl
+    · have hp : ∀ l' ∈ rest, indent <+: l' := by
+        intro l' hl'
+        rcases Classical.em ((s.length : Int) > width) with hl | hl
+        · cases hb : findBreak width indent s with
+          | none => rw [iterLines_none hl hb] at hL; injection hL with _ h; subst h; simp at hl'
+          | some p =>
+            rw [iterLines_some hl hb] at hL
+            injection hL with _ h
+            exact iterLines_all_prefix width indent _ (List.prefix_append _ _) l' (h ▸ hl')
+        · rw [iterLines_short hl] at hL
+          split at hL
+          · cases hL
+          · injection hL with _ h; subst h; simp at hl'
+      conv => rhs; rw [hs]
+      rw [hL, words_append_all_ws _ htw, words_glue hind seps rest l hsl hsw hp]
+      simp
+  exact ⟨main, by rw [wrap, words_joinWith_nl, hstrip, main]⟩
+
+theorem C19_words_nonvacuous :
+    words (wrap 3 "  ".toList " a b\tc".toList) = ["a".toList, "b".toList, "c".toList] ∧
+    wrap 3 "  ".toList " a b\tc".toList = " a b\n  c".toList := by
+  decide +kernel
+
+/-! ### indent -/
+
+/-- Every continuation line starts with the indent.  For the emitted (right-stripped) lines:
+an emitted continuation line starts with the indent, or – when nothing but white space followed
+the indent – it is a prefix of the indent, i.e. EMPTY for a white-space indent. -/
+theorem C19_indent (width : Int) (indent s : Str) :
+    (∀ l ∈ (iterLines width indent s).tail, indent <+: l) ∧
+    (∀ e ∈ ((iterLines width indent s).map rstrip).tail, indent <+: e ∨ e <+: indent) ∧
+    ((∀ c ∈ indent, isWs c = true) →
+      ∀ e ∈ ((iterLines width indent s).map rstrip).tail, indent <+: e ∨ e = []) := by
+  have h1 : ∀ l ∈ (iterLines width indent s).tail, indent <+: l := by
+    intro l hl
+    rcases Classical.em ((s.length : Int) > width) with hlen | hlen
+    · cases hb : findBreak width indent s with
+      | none => rw [iterLines_none hlen hb] at hl; simp at hl
+      | some p =>
+        rw [iterLines_some hlen hb] at hl
+        exact iterLines_all_prefix width indent _ (List.prefix_append _ _) l hl
+    · rw [iterLines_short hlen] at hl
+      split at hl <;> simp at hl
+  have h2 : ∀ e ∈ ((iterLines width indent s).map rstrip).tail, indent <+: e ∨ e <+: indent := by
+    intro e he
+    rw [← List.map_tail] at he
+    obtain ⟨l, hl, rfl⟩ := List.mem_map.1 he
+    exact List.prefix_or_prefix_of_prefix (h1 l hl) (rstrip_prefix l)
+  refine ⟨h1, h2, ?_⟩
+  intro hind e he
+  rcases h2 e he with h | h
+  · exact Or.inl h
+  · right
+    -- a prefix of a white-space string that does not end in white space is empty
+    rw [← List.map_tail] at he
+    obtain ⟨l, _, rfl⟩ := List.mem_map.1 he
+    have hlast := (rstrip_spec l).2
+    cases hg : (rstrip l).getLast? with
+    | none => exact List.getLast?_eq_none_iff.1 hg
+    | some c =>
+      have hc := hlast c hg
+      have hmem : c ∈ indent := h.subset (List.mem_of_getLast? hg)
+      rw [hind c hmem] at hc
+      cases hc
+
+theorem C19_indent_nonvacuous :
+    (iterLines 3 "  ".toList "aaaa   bbbb".toList).tail = ["   ".toList, "  bbbb".toList] ∧
+    ((iterLines 3 "  ".toList "aaaa   bbbb".toList).map rstrip).tail = [[], "  bbbb".toList] := by
+  decide +kernel
+
+/-! ### width -/
+
+/-- A yielded line longer than `width` has no legal break position (no white space at any
+position `q` with `|indent| < q ≤ width`); equivalently every line that has a legal break
+position has length ≤ `width`.  The same holds for the emitted (right-stripped) lines. -/
+theorem C19_width (width : Int) (indent s : Str) :
+    (∀ l ∈ iterLines width indent s, (l.length : Int) > width → ∀ q, ¬ LegalBreak width indent l q) ∧
+    (∀ l ∈ iterLines width indent s, (∃ q, LegalBreak width indent l q) → (l.length : Int) ≤ width) ∧
+    (∀ e ∈ (iterLines width indent s).map rstrip, (e.length : Int) > width → ∀ q, ¬ LegalBreak width indent e q) ∧
+    (∀ e ∈ (iterLines width indent s).map rstrip, (∃ q, LegalBreak width indent e q) → (e.length : Int) ≤ width) := by
+  have h1 : ∀ l ∈ iterLines width indent s, (l.length : Int) > width → ∀ q, ¬ LegalBreak width indent l q := by
+    refine iterLines_induct (w := width) (ind := indent)
+      (fun _ L => ∀ l ∈ L, (l.length : Int) > width → ∀ q, ¬ LegalBreak width indent l q) ?_ ?_ ?_ s
+    · intro s hs l hl hlen
+      split at hl
+      · simp at hl
+      · simp only [List.mem_singleton] at hl; subst hl; exact absurd hlen hs
+    · intro s _ hb l hl _ q ⟨hq1, _, hq3⟩
+      simp only [List.mem_singleton] at hl; subst hl
+      have := findBreak_none hb q hq3
+      omega
+    · intro s p _ hb ih l hl hlen q ⟨hq1, hq2, hq3⟩
+      simp only [List.mem_cons] at hl
+      rcases hl with hl | hl
+      · subst hl
+        obtain ⟨_, hws, h3, _⟩ := findBreak_some hb
+        have hplt := hws.lt
+        have hlp : (s.take p).length = p := by simp only [List.length_take]; omega
+        obtain ⟨hqp, hqs⟩ := WsAt_take.1 hq3
+        have := h3 q hq1 hqp hqs
+        omega
+      · exact ih l hl hlen q ⟨hq1, hq2, hq3⟩
+  have h3 : ∀ e ∈ (iterLines width indent s).map rstrip, (e.length : Int) > width → ∀ q, ¬ LegalBreak width indent e q := by
+    intro e he hlen q ⟨hq1, hq2, hq3⟩
+    obtain ⟨l, hl, rfl⟩ := List.mem_map.1 he
+    have hp := rstrip_prefix l
+    have hle : (rstrip l).length ≤ l.length := hp.length_le
+    exact h1 l hl (by omega) q ⟨hq1, hq2, WsAt_prefix hp hq3⟩
+  refine ⟨h1, ?_, h3, ?_⟩
+  · intro l hl ⟨q, hq⟩
+    rcases Classical.em ((l.length : Int) ≤ width) with h | h
+    · exact h
+    · exact absurd hq (h1 l hl (by omega) q)
+  · intro e he ⟨q, hq⟩
+    rcases Classical.em ((e.length : Int) ≤ width) with h | h
+    · exact h
+    · exact absurd hq (h3 e he (by omega) q)
+
+/-- both kinds of line occur: an over-long line without a legal break (the only white space of
+`aa bb` is inside the region `q ≤ |indent|`), and a line with a legal break inside the width -/
+theorem C19_width_nonvacuous :
+    iterLines 3 "  ".toList "aa bb c".toList = ["aa bb".toList, "  c".toList] ∧
+    iterLines 11 "  ".toList "01234 6789 12345".toList = ["01234 6789".toList, "  12345".toList] ∧
+    LegalBreak 11 "  ".toList "01234 6789".toList 5 := by
+  refine ⟨by decide +kernel, by decide +kernel, by decide, by decide, ' ', by decide, by decide⟩
+
+/-- Lines are as long as possible (the docstring's promise): when the first line `l` is followed
+by another line, `l` ends just before a white-space character of the text, and the next place
+where it could have ended instead – the next white space, or the end of the text – lies beyond
+`width`.  By `C19_breaks_at_ws` the same holds for every later line with respect to
+`indent ++ remainder`. -/
+theorem C19_greedy (width : Int) (indent s l l' : Str) (rest : List Str)
+    (h : iterLines width indent s = l :: l' :: rest) :
+    l = s.take l.length ∧ WsAt s l.length ∧ indent.length < l.length ∧
+    ∀ q, l.length < q → (WsAt s q ∨ q = s.length) → width < (q : Int) := by
+  rcases Classical.em ((s.length : Int) > width) with hl | hl
+  · cases hb : findBreak width indent s with
+    | none => rw [iterLines_none hl hb] at h; simp at h
+    | some p =>
+      rw [iterLines_some hl hb] at h
+      injection h with h1 _
+      obtain ⟨hip, hws, _, h4⟩ := findBreak_some hb
+      have hplt := hws.lt
+      have hlp : l.length = p := by rw [← h1]; simp only [List.length_take]; omega
+      rw [hlp]
+      refine ⟨h1.symm, hws, hip, ?_⟩
+      intro q hq hor
+      rcases hor with hor | hor
+      · exact h4 q hq hor
+      · omega
+  · rw [iterLines_short hl] at h
+    split at h <;> simp at h
+
+/-! ### rstrip -/
+
+/-- The returned string is the `"\n"`-join of the emitted lines; emitted line number `i` is
+yielded line number `i` with trailing white space removed and nothing else, and no emitted
+line ends in white space. -/
+theorem C19_rstrip (width : Int) (indent s : Str) :
+    ∃ emitted : List Str, wrap width indent s = joinWith ['\n'] emitted ∧
+      emitted.length = (iterLines width indent s).length ∧
+      ∀ i (h₁ : i < (iterLines width indent s).length) (h₂ : i < emitted.length),
+        StrippedOf (iterLines width indent s)[i] emitted[i] := by
+  refine ⟨(iterLines width indent s).map rstrip, rfl, by simp, ?_⟩
+  intro i h₁ h₂
+  simp only [List.getElem_map]
+  exact rstrip_spec _
+
+theorem C19_rstrip_nonvacuous :
+    StrippedOf "ab \t ".toList "ab".toList ∧ rstrip "ab \t ".toList = "ab".toList := by
+  refine ⟨⟨⟨" \t ".toList, by decide, by decide⟩, ?_⟩, by decide⟩
+  intro c hc
+  have : c = 'b' := by
+    have h : "ab".toList.getLast? = some 'b' := by decide
+    rw [h] at hc; injection hc with hc; exact hc.symm
+  subst this; decide
+
+/-! ### short texts, termination -/
+
+/-- A text that fits into `width` comes back as a single line (no line for the empty text),
+and `wrap` returns it right-stripped. -/
+theorem C19_short_identity (width : Int) (indent s : Str) (h : (s.length : Int) ≤ width) :
+    iterLines width indent s = (if s.isEmpty then [] else [s]) ∧ wrap width indent s = rstrip s := by
+  have hl : ¬ (s.length : Int) > width := by omega
+  refine ⟨iterLines_short hl, ?_⟩
+  rw [wrap, iterLines_short hl]
+  split
+  · rename_i he
+    have : s = [] := by simpa using he
+    subst this
+    rfl
+  · rfl
+
+theorem C19_short_identity_nonvacuous :
+    (("ab c  ".toList.length : Nat) : Int) ≤ 6 ∧ wrap 6 "  ".toList "ab c  ".toList = "ab c".toList := by
+  decide +kernel
+
+/-- `iter_lines` terminates for every text, width and indent.  Termination itself is the
+well-foundedness proof inside the definition of `iterLines` (`Model/Wrap.lean`: the next string
+`indent + s[p+1:]` is shorter than `s` because `find_break` only returns positions with
+`|indent| < p < |s|`, lemma `findBreak_bounds`); stated as a bound: at most `|s| + 1` lines. -/
+theorem C19_terminates (width : Int) (indent s : Str) :
+    (iterLines width indent s).length ≤ s.length + 1 := by
+  refine iterLines_induct (w := width) (ind := indent) (fun s L => L.length ≤ s.length + 1) ?_ ?_ ?_ s
+  · intro s _; split <;> simp
+  · intro s _ _; simp
+  · intro s p _ hb ih
+    have := findBreak_bounds hb
+    simp only [List.length_append, List.length_drop, List.length_cons] at ih ⊢
+    omega
+
 end Pybtex.Props
